@@ -35,16 +35,26 @@ type reassignResult struct {
 func reassign(args []string) error {
 	fs := flag.NewFlagSet("c14-reassign", flag.ContinueOnError)
 	out := fs.String("out", "", "results (ndjson)")
+	from := fs.Int("from", 1, "first item to run (1 = BOTH, 2 = REPLICA)")
+	to := fs.Int("to", 1<<30, "last item to run")
 	if err := fs.Parse(args); err != nil {
 		return err
 	}
 	sut.FastRefresh() // periodic refresh every 200 ms
-	w, err := cli.NewNDJSONWriter(*out)
+	w, err := newLineWriter(*out)
 	if err != nil {
 		return err
 	}
 	defer w.Close()
-	for name, st := range map[string]pbredis.ReadStrategy{"BOTH": pbredis.ReadStrategy_BOTH, "REPLICA": pbredis.ReadStrategy_REPLICA} {
+	for item, name := range []string{"BOTH", "REPLICA"} {
+		if item+1 < *from || item+1 > *to {
+			continue
+		}
+		st := strategyOf[name]
+		// the process hosting the processor may die in this item: say which one is running
+		if err := w.Write(map[string]interface{}{"begin": item + 1, "what": "replica re-pointed to another master, refresh, reads; strategy " + name}); err != nil {
+			return err
+		}
 		cl, err := simredis.NewCluster(2, 1) // masters 0,1; replica 2 of master 0, replica 3 of master 1
 		if err != nil {
 			return err
@@ -136,6 +146,8 @@ func run(args []string) error {
 	out := fs.String("out", "", "results (ndjson)")
 	trials := fs.Int("trials", 6, "repetitions of forwarded read-only commands (replica choice is clock based)")
 	allCases := fs.Bool("allcases", false, "send every name in lower, UPPER and MiXed case (default: rotate)")
+	from := fs.Int("from", 1, "first vector to replay")
+	to := fs.Int("to", 1<<30, "last vector to replay")
 	if err := fs.Parse(args); err != nil {
 		return err
 	}
@@ -166,7 +178,7 @@ func run(args []string) error {
 		defer c.Close()
 		clients[name] = c
 	}
-	w, err := cli.NewNDJSONWriter(*out)
+	w, err := newLineWriter(*out)
 	if err != nil {
 		return err
 	}
@@ -191,6 +203,12 @@ func run(args []string) error {
 			return err
 		}
 		vi++
+		if vi < *from || vi > *to {
+			return nil
+		}
+		if err := w.Write(map[string]interface{}{"begin": vi, "what": fmt.Sprintf("vector %q (class %s)", v.Name, v.Class)}); err != nil {
+			return err
+		}
 		variants := []string{v.Name, strings.ToUpper(v.Name), mixed(v.Name)}
 		if !*allCases {
 			variants = variants[vi%3 : vi%3+1]
